@@ -437,6 +437,10 @@ fn main() {
             }
             ["embfile", ..] => {}
             ["base", "emb"] => cur.bases.push(Some(Box::new(EmbeddedFS::<Emb1>::new()))),
+            ["base", "physfix"] => {
+                let d = PathBuf::from(concat!(env!("CARGO_MANIFEST_DIR"), "/fixtures/emb1"));
+                cur.bases.push(Some(Box::new(PhysicalFS::new(&d))));
+            }
             ["base", "embempty"] => cur.bases.push(Some(Box::new(EmbeddedFS::<EmbEmpty>::new()))),
             ["fuel", _] => {}
             ["fs", "base", i] => {
